@@ -400,3 +400,874 @@ def sweep_c11(rng, tier):
     samples = [{"canonical": c[0], "variant": c[1]} for c in cases[:: max(1, len(cases) // 5)]][:6]
     return {"evaluations": len(cases) + nsep + ndash, "distinct_nontrivial": len(seen), "failures": fails, "samples": samples, "distribution": dict(dist), "exhaustive_part": "all %d separator and %d dash code points" % (nsep, ndash),
             "rule": "every code point of the separator and dash classes as a single separator (exhaustive, function level); corpus/grammar expressions with random separator runs, dash runs (incl. ASCII runs) and upper/lower/title/swap case; non-trivial = distinct variant that resolved"}
+
+
+# ------------------------------------------------------------------ C12
+def stream_digest(text, ts, kw):
+    from ctparse import ctparse_gen
+    from codec import enc_art
+    out = []
+    for p in ctparse_gen(text, ts=to_ts(ts), **kw):
+        if p is not None:
+            out.append((enc_art(p.resolution), tuple(str(x) for x in p.production), round(p.score, 9), p.subject, tuple(p.labels)))
+    return out
+
+
+C12_POOL = [("tomorrow 5pm #work #home", {}), ("9-5", {}), ("friday 8pm-9pm lunch with bob", {}), ("12.12.2020 for 3 days", {}), ("gargelbabel", {}), ("monday morning 5.12.2020", {}),
+            ("5 5 5", {"max_stack_depth": 3}), ("next friday", {"latent_time": False}), ("heute 14 uhr #a #b #c", {}), ("in fünf tagen", {}), ("early early morning", {}),
+            ("15-18 Nov für 3 Nächte", {}), ("tomorrow #work 5pm", {"relative_match_len": 0.5}), ("Übermorgen 5pm", {}), ("3 days 15-18 Nov", {"max_stack_depth": 0})]
+
+
+def c12_hashseed_probe(seed):
+    code = r'''
+import sys, json, warnings
+warnings.simplefilter("ignore")
+sys.path.insert(0, %r); sys.path.insert(0, %r)
+import sweeps2
+out = []
+for t, kw in sweeps2.C12_POOL:
+    k = dict(timeout=0); k.update(kw)
+    out.append(sweeps2.stream_digest(t, (2018, 3, 7, 12, 43, 0), k))
+print(json.dumps(out))
+''' % (REPO, os.path.join(VERIF, "harness"))
+    env = dict(os.environ); env["PYTHONHASHSEED"] = str(seed)
+    p = subprocess.run(["/venv/bin/python", "-c", code], capture_output=True, text=True, env=env, timeout=600)
+    if p.returncode != 0:
+        return None, p.stderr[-400:]
+    return json.loads(p.stdout.strip().split("\n")[-1]), None
+
+
+def sweep_c12(rng, tier):
+    _init()
+    import ctparse
+    from ctparse import ctparse_gen
+    from ctparse.rule import rules, _regex, _regex_str, _str_regex
+    C = sys.modules["ctparse.ctparse"]
+    ts = (2018, 3, 7, 12, 43, 0)
+    fails = []
+    dist = collections.Counter()
+    norm = lambda x: json.loads(json.dumps(x))
+    ref = {}
+    for t, kw in C12_POOL:
+        k = dict(timeout=0); k.update(kw)
+        ref[t] = norm(stream_digest(t, ts, k))
+
+    def snapshot_world():
+        import pickle
+        mdl = C._DEFAULT_SCORER
+        return (tuple(rules.keys()), tuple((n, len(v[1])) for n, v in rules.items()), tuple(sorted(_regex_str.items())), tuple(sorted(_str_regex.items())), tuple(sorted(_regex)),
+                pickle.dumps(getattr(mdl, "_model", None).__dict__ if hasattr(mdl, "_model") else None, protocol=4) if True else None)
+    w0 = snapshot_world()
+    # 1. random call histories incl. abandoned streams and failing calls
+    n_hist = 60 if tier == "thorough" else 12
+    for h in range(n_hist):
+        steps = []
+        for _ in range(rng.randint(3, 10)):
+            t, kw = rng.choice(C12_POOL); k = dict(timeout=0); k.update(kw)
+            mode = rng.choice(["full", "abandon", "fail", "check"])
+            steps.append((mode, t))
+            try:
+                if mode == "full": list(ctparse_gen(t, ts=to_ts(ts), **k))
+                elif mode == "abandon":
+                    g = ctparse_gen(t, ts=to_ts(ts), **k)
+                    for _ in range(rng.randint(0, 2)): next(g, None)
+                    del g
+                elif mode == "fail":
+                    try: list(ctparse_gen(t, ts="not a datetime", **k))
+                    except Exception: pass
+            except Exception as e:
+                fails.append({"text": t, "ts": list(ts), "opts": {"history": steps}, "expected": "no exception", "observed": type(e).__name__, "what": "C12 history"})
+            t2, kw2 = rng.choice(C12_POOL); k2 = dict(timeout=0); k2.update(kw2)
+            got = norm(stream_digest(t2, ts, k2)); dist["history checks"] += 1
+            if got != ref[t2]:
+                fails.append({"text": t2, "ts": list(ts), "opts": {"history": steps}, "expected": "same stream as in a fresh state", "observed": "stream differs after the history", "what": "C12 history"})
+                break
+    # 2. interleavings of two streams (all merges of their step sequences for short ones, random otherwise)
+    pairs = [(a, b) for a in C12_POOL[:8] for b in C12_POOL[:8] if a is not b]
+    for (ta, ka), (tb, kb) in (pairs if tier == "thorough" else rng.sample(pairs, 10)):
+        la, lb = len(ref[ta]), len(ref[tb])
+        scheds = []
+        if la + lb <= 8:
+            for comb in itertools.combinations(range(la + lb + 2), la + 1):
+                scheds.append([0 if i in comb else 1 for i in range(la + lb + 2)])
+        else:
+            for _ in range(6):
+                s = [0] * (la + 1) + [1] * (lb + 1); rng.shuffle(s); scheds.append(s)
+        for s in scheds[:80]:
+            ka2 = dict(timeout=0); ka2.update(ka); kb2 = dict(timeout=0); kb2.update(kb)
+            ga = ctparse_gen(ta, ts=to_ts(ts), **ka2); gb = ctparse_gen(tb, ts=to_ts(ts), **kb2)
+            oa, ob = [], []
+            from codec import enc_art
+            for who in s:
+                g, o = (ga, oa) if who == 0 else (gb, ob)
+                p = next(g, None)
+                if p is not None: o.append([enc_art(p.resolution), [str(x) for x in p.production], round(p.score, 9), p.subject, list(p.labels)])
+            dist["interleavings"] += 1
+            if oa != ref[ta][:len(oa)] or ob != ref[tb][:len(ob)] or len(oa) != la or len(ob) != lb:
+                fails.append({"text": ta + " || " + tb, "ts": list(ts), "opts": {"schedule": s}, "expected": "each stream as when consumed alone", "observed": "interleaved consumption changed a stream", "what": "C12 interleaving"})
+                break
+    # 3. threads with a microsecond switch interval, cold texts included
+    old = sys.getswitchinterval(); sys.setswitchinterval(1e-6)
+    try:
+        for rnd in range(6 if tier == "thorough" else 2):
+            cold = ["%s %d.%d.20%02d %d:%02d" % (rng.choice(["meet", "", "call"]), rng.randint(1, 28), rng.randint(1, 12), rng.randint(10, 29), rng.randint(0, 23), rng.randint(0, 59)) for _ in range(6)] + \
+                   [rng.choice(["next", "this", "am", ""]) + " " + rng.choice(["mon", "friday", "sonntag"]) + " " + rng.choice(["morning", "8pm", "früh", "at noon"]) for _ in range(6)]
+            want = {}
+            results = [None] * 8
+            errors = []
+            barrier = threading.Barrier(8)
+
+            def worker(i):
+                try:
+                    barrier.wait()
+                    out = {}
+                    for t in cold + [x[0] for x in C12_POOL[:6]]:
+                        out[t] = norm(stream_digest(t, ts, dict(timeout=0)))
+                    results[i] = out
+                except Exception as e:
+                    errors.append("%s: %s" % (type(e).__name__, e))
+            th = [threading.Thread(target=worker, args=(i,)) for i in range(8)]
+            for x in th: x.start()
+            for x in th: x.join()
+            dist["thread rounds"] += 1
+            solo = {t: norm(stream_digest(t, ts, dict(timeout=0))) for t in cold + [x[0] for x in C12_POOL[:6]]}
+            if errors:
+                fails.append({"text": cold[0], "ts": list(ts), "opts": {"threads": 8, "texts": cold}, "expected": "no exception", "observed": errors[0], "what": "C12 threads"})
+            for i, r in enumerate(results):
+                if r is not None and r != solo:
+                    bad = [t for t in solo if r.get(t) != solo[t]]
+                    fails.append({"text": bad[0], "ts": list(ts), "opts": {"threads": 8, "texts": cold}, "expected": "same stream as single-threaded", "observed": "thread %d got a different stream for %d texts" % (i, len(bad)), "what": "C12 threads"})
+                    break
+    finally:
+        sys.setswitchinterval(old)
+    # 4. hash seeds (fresh interpreters)
+    seeds = [0, 1, 2, 42, "random"] if tier == "thorough" else [0, 1, "random"]
+    base = None
+    for sd in seeds:
+        got, err = c12_hashseed_probe(sd)
+        dist["hash seeds"] += 1
+        if err:
+            fails.append({"text": "(fresh interpreter)", "ts": list(ts), "opts": {"PYTHONHASHSEED": sd}, "expected": "runs", "observed": err, "what": "C12 hash seed"}); continue
+        if base is None: base = got
+        elif got != base:
+            k = [i for i, (a, b) in enumerate(zip(got, base)) if a != b]
+            fails.append({"text": C12_POOL[k[0]][0], "ts": list(ts), "opts": {"PYTHONHASHSEED": sd}, "expected": "same result under every hash seed", "observed": "stream differs between hash seeds", "what": "C12 hash seed"})
+    if base is not None and norm(base) != [ref[t] for t, _ in C12_POOL]:
+        fails.append({"text": "(fresh interpreter)", "ts": list(ts), "opts": {}, "expected": "fresh process = this process", "observed": "differs", "what": "C12 fresh process"})
+    # 5. arguments, scorer model and rule base unchanged
+    if snapshot_world() != w0:
+        fails.append({"text": "(world)", "ts": list(ts), "opts": {}, "expected": "registry, regex tables and scorer model unchanged by parsing", "observed": "changed", "what": "C12 world"})
+    n = sum(dist.values())
+    return {"evaluations": n, "distinct_nontrivial": len(C12_POOL) + dist["interleavings"], "failures": fails, "samples": [{"text": t, "opts": kw, "stream_len": len(ref[t])} for t, kw in C12_POOL[:5]], "distribution": dict(dist),
+            "rule": "call histories (full / abandoned / failing calls) over a pool of inputs and options, each followed by a comparison with the fresh-state stream; all merges of the steps of two short streams; 8 threads at 1 µs switch interval on cold texts; fresh interpreters under several PYTHONHASHSEED; deep snapshot of registry, regex tables and pickled model before/after"}
+
+
+# ------------------------------------------------------------------ C13
+def c13_run(text, ts, timeout, depth, clock_factory):
+    """one run under a virtual clock; returns emissions, counts between consecutive deadline checks, whether anything raised"""
+    import ctparse.timers as TM
+    C = sys.modules["ctparse.ctparse"]
+    PPm = sys.modules["ctparse.partial_parse"]
+    from ctparse.scorer import Scorer
+    from codec import enc_art
+    clock = clock_factory()
+    log = []           # events: ("check", t) ("score", t) ("final", t) ("filter", t) ("rule", t)
+    real_timeout = TM.timeout
+
+    def counting_timeout(t):
+        inner = real_timeout(t)
+        def _tt():
+            log.append(("check", clock.t))
+            return inner()
+        return _tt
+
+    class CountScorer(Scorer):
+        def __init__(self, inner): self.inner = inner
+        def score(self, txt, ts_, pp): log.append(("score", clock.t)); return self.inner.score(txt, ts_, pp)
+        def score_final(self, txt, ts_, pp, prod): log.append(("final", clock.t)); return self.inner.score_final(txt, ts_, pp, prod)
+    orig_pc, orig_to, orig_filter, orig_apply = TM.perf_counter, C.timeout_, PPm.PartialParse._filter_rules, PPm.PartialParse.apply_rule
+
+    def filt(self, rules): log.append(("filter", clock.t)); return orig_filter(self, rules)
+    def appl(self, *a, **k): log.append(("rule", clock.t)); return orig_apply(self, *a, **k)
+    TM.perf_counter = clock
+    C.timeout_ = counting_timeout
+    PPm.PartialParse._filter_rules = filt; PPm.PartialParse.apply_rule = appl
+    raised = None
+    out = []
+    try:
+        for p in C.ctparse_gen(text, ts=to_ts(ts), timeout=timeout, max_stack_depth=depth, scorer=CountScorer(C._DEFAULT_SCORER)):
+            if p is not None: out.append((enc_art(p.resolution), tuple(str(x) for x in p.production), round(p.score, 9)))
+    except Exception as e:
+        raised = type(e).__name__
+    finally:
+        TM.perf_counter = orig_pc; C.timeout_ = orig_to; PPm.PartialParse._filter_rules = orig_filter; PPm.PartialParse.apply_rule = orig_apply
+    return out, log, raised, clock.reads
+
+
+class VClock:
+    def __init__(self): self.t = 0; self.reads = 0
+    def __call__(self): self.reads += 1; self.t += 1; return float(self.t)
+
+
+def c13_text(job):
+    text, depth, tier, seed = job
+    _init()
+    rng = random.Random(seed)
+    fails = []
+    dist = collections.Counter()
+    ts = (2018, 3, 7, 12, 43, 0)
+    from ctparse.rule import rules
+    nrules = len(rules)
+    if True:
+        full, log, raised, reads = c13_run(text, ts, 10 ** 9, depth, VClock)
+        full0, _, raised0, _ = c13_run(text, ts, 0, depth, VClock)
+        dist["runs"] += 2
+        if raised or raised0 or full0 != full:
+            fails.append({"text": text, "ts": list(ts), "opts": {"timeout": 0}, "expected": "timeout 0 = no limit, nothing raised", "observed": "raised=%s/%s, stream equal=%s" % (raised, raised0, full0 == full), "what": "C13 timeout 0"})
+        # work between two consecutive checks (no expiry): must not grow with the number of candidate sequences
+        def max_between(lg):
+            best = collections.Counter(); cur = collections.Counter()
+            for k, _ in lg:
+                if k == "check":
+                    for kk in cur: best[kk] = max(best[kk], cur[kk])
+                    cur = collections.Counter()
+                else: cur[k] += 1
+            for kk in cur: best[kk] = max(best[kk], cur[kk])
+            return best
+        mb = max_between(log)
+        maxlen = max(1, len(text.split()) * 3)
+        bound = {"filter": 1, "score": nrules * maxlen + 1, "rule": nrules * maxlen, "final": maxlen}
+        for k, v in mb.items():
+            if v > bound.get(k, 10 ** 9):
+                fails.append({"text": text, "ts": list(ts), "opts": {"depth": depth}, "expected": "at most %d %s operations between two deadline checks" % (bound[k], k), "observed": "%d" % v, "what": "C13 work between checks"})
+        step = 1 if (reads <= (2000 if tier == "thorough" else 120)) else max(1, reads // (600 if tier == "thorough" else 100))
+        for deadline in range(0, reads + 2, step):
+            got, lg, raised, _ = c13_run(text, ts, deadline, depth, VClock)
+            dist["expiry points"] += 1
+            if raised:
+                fails.append({"text": text, "ts": list(ts), "opts": {"virtual_deadline": deadline, "depth": depth}, "expected": "never raises", "observed": raised, "what": "C13 raises"}); break
+            if got != full[:len(got)]:
+                fails.append({"text": text, "ts": list(ts), "opts": {"virtual_deadline": deadline, "depth": depth}, "expected": "prefix of the stream without timeout", "observed": "not a prefix (%d emitted)" % len(got), "what": "C13 prefix"}); break
+            # stop at the first check after the deadline: after the first check made when time is up, no further work
+            late_checks = [i for i, (k, t) in enumerate(lg) if k == "check" and t - 1 > deadline]   # start_time = 1.0 ; expires when t_now - 1 > timeout
+            if late_checks and deadline > 0:
+                after = lg[late_checks[0] + 1:]
+                # the check itself reads the clock once more; anything logged after the first late check is work after expiry
+                if after:
+                    fails.append({"text": text, "ts": list(ts), "opts": {"virtual_deadline": deadline, "depth": depth}, "expected": "stop at the first check after the deadline", "observed": "%d operations after it: %s" % (len(after), collections.Counter(k for k, _ in after)), "what": "C13 work after expiry"}); break
+            # work after the deadline passed on the clock but before the next check is bounded as above
+            lateops = collections.Counter(k for k, t in lg if k != "check" and t - 1 > deadline) if deadline > 0 else {}
+            for k, v in lateops.items():
+                if v > bound.get(k, 10 ** 9):
+                    fails.append({"text": text, "ts": list(ts), "opts": {"virtual_deadline": deadline, "depth": depth}, "expected": "at most %d %s operations after expiry" % (bound[k], k), "observed": "%d" % v, "what": "C13 work after expiry"}); break
+        # the single-result call under a timeout returns the best so far or a result without resolution, never raises
+        C = sys.modules["ctparse.ctparse"]
+        import ctparse.timers as TM
+        for deadline in rng.sample(range(1, reads + 1), min(6, reads)):
+            clock = VClock(); orig = TM.perf_counter; TM.perf_counter = clock
+            try:
+                r = C.ctparse(text, ts=to_ts(ts), timeout=deadline, max_stack_depth=depth)
+                str(r)
+                dist["single-result under timeout"] += 1
+            except Exception as e:
+                fails.append({"text": text, "ts": list(ts), "opts": {"virtual_deadline": deadline}, "expected": "clean partial result", "observed": type(e).__name__, "what": "C13 raises"})
+            finally:
+                TM.perf_counter = orig
+    return fails, dict(dist)
+
+
+def sweep_c13(rng, tier):
+    import multiprocessing as mp
+    texts = [("tomorrow 8 yesterday Sep 9 9 12 2023 1923", 10), ("1 1 1", 0), ("1 1 1 1", 0), ("5 5 5 5 5", 10), ("friday 8pm-9pm", 10), ("12.12.2020 for 3 days", 10), ("gargelbabel", 10), ("9-5", 0)]
+    if tier == "thorough": texts += [("1 1 1 1 1", 0), ("5 5 5 5 5 5", 10), ("monday morning 5.12.2020 8 8", 10)]
+    jobs = [(t, d, tier, rng.randrange(10 ** 6)) for t, d in texts]
+    ctx = mp.get_context("fork")
+    with ctx.Pool(min(len(jobs), os.cpu_count() or 1)) as pool:
+        res = pool.map(c13_text, jobs, chunksize=1)
+    fails = []
+    dist = collections.Counter()
+    for f, d in res:
+        fails += f
+        for k, v in d.items(): dist[k] += v
+    return {"evaluations": sum(dist.values()), "distinct_nontrivial": dist["expiry points"], "failures": fails, "samples": [{"text": t, "depth": d} for t, d in texts[:4]], "distribution": dict(dist),
+            "rule": "virtual clock (ctparse.timers.perf_counter replaced by a counter): every expiry point between two clock reads of each run is enumerated; emissions must be a prefix of the unlimited stream, nothing raises, "
+                    "no operation after the first failing check, and rule-applicability analyses / rule applications / scorings between two checks stay within a bound that does not depend on the number of candidate sequences"}
+
+
+# ------------------------------------------------------------------ C14
+def c14_case(case):
+    _init()
+    from ctparse import ctparse, ctparse_gen
+    from ctparse.scorer import DummyScorer, RandomScorer
+    from codec import enc_art
+    text, ts, o = case
+    kw = dict(timeout=0, latent_time=o["latent"], max_stack_depth=o["depth"], relative_match_len=o["rml"])
+    mk = {"shipped": lambda: None, "const": DummyScorer, "random": lambda: RandomScorer(random.Random(o["seed"]))}[o["scorer"]]
+    probs = []
+    try:
+        stream = [p for p in ctparse_gen(text, ts=to_ts(ts), scorer=mk(), **kw) if p is not None]
+        single = ctparse(text, ts=to_ts(ts), scorer=mk(), **kw)
+    except Exception as e:
+        return {"n": 0, "probs": ["exception " + type(e).__name__]}
+    key = lambda p: (enc_art(p.resolution), tuple(str(x) for x in p.production), p.subject, tuple(p.labels))
+    if not stream:
+        if single.resolution is not None: probs.append("stream empty but a resolution was returned")
+    else:
+        if single.resolution is None: probs.append("empty resolution although the stream has %d candidates" % len(stream))
+        else:
+            mx = max(p.score for p in stream)
+            if single.score != mx: probs.append("returned score %r is not the maximum %r of the stream" % (single.score, mx))
+            if o["scorer"] != "random" or True:
+                if not any(key(p) == key(single) and p.score == single.score for p in stream): probs.append("returned parse is not one of the streamed candidates")
+    for p in stream:
+        if not (isinstance(p.score, (int, float)) and math.isfinite(p.score)): probs.append("score %r not finite" % (p.score,))
+    if not o["latent"]:
+        seen = {}
+        for p in stream:
+            k = p.resolution
+            if k in seen and not (p.score > seen[k]): probs.append("value %s streamed again with score %r <= %r" % (p.resolution, p.score, seen[k]))
+            seen[k] = max(p.score, seen.get(k, p.score))
+    return {"n": len(stream), "probs": probs}
+
+
+def sweep_c14(rng, tier):
+    import multiprocessing as mp
+    from ctparse.time.corpus import corpus
+    P = lambda s: tuple(datetime.strptime(s, "%Y-%m-%dT%H:%M").timetuple()[:5]) + (0,)
+    ex = [(t, P(tss)) for _, tss, tests in corpus for t in tests]
+    ex = rng.sample(ex, 400 if tier == "thorough" else 90) + [("22.05.2017 früh", (2018, 3, 7, 12, 43, 0)), ("12-11-2017", (2017, 10, 18, 18, 45, 37)), ("on Monday 20th November", (2017, 10, 18, 18, 45, 37)),
+                                                               ("Mon, Jul 31 7:30 AM", (2017, 7, 25, 13, 33, 14)), ("gargelbabel", (2018, 3, 7, 12, 43, 0)), ("", (2018, 3, 7, 12, 43, 0))]
+    cases = []
+    for t, ts in ex:
+        for o in ({"latent": False, "depth": 0, "rml": 1.0, "scorer": "shipped", "seed": 0}, {"latent": True, "depth": 10, "rml": 1.0, "scorer": "shipped", "seed": 0},
+                  {"latent": False, "depth": rng.choice([0, 3, 10]), "rml": 1.0, "scorer": "const", "seed": 0}, {"latent": rng.random() < 0.5, "depth": rng.choice([0, 1, 3]), "rml": rng.choice([1.0, 0.5]), "scorer": "random", "seed": rng.randrange(99)}):
+            cases.append((t, ts, o))
+    ctx = mp.get_context("fork")
+    with ctx.Pool(min(16, os.cpu_count() or 1)) as pool:
+        recs = pool.map(c14_case, cases, chunksize=4)
+    fails, seen, dist = [], set(), collections.Counter()
+    for c, r in zip(cases, recs):
+        dist["scorer=" + c[2]["scorer"]] += 1; dist["candidates"] += r["n"]
+        if r["n"] > 1: seen.add((c[0], json.dumps(c[2], sort_keys=True)))
+        for p in r["probs"]:
+            fails.append({"text": c[0], "ts": list(c[1]), "opts": c[2], "expected": "single result = a maximal-score candidate of the stream; finite scores; re-emission only with a strictly higher score", "observed": p, "what": "C14: " + p.split(" ")[0] + " " + p.split(" ")[1]})
+    return {"evaluations": len(cases), "distinct_nontrivial": len(seen), "failures": fails, "samples": [{"text": c[0], "opts": c[2], "candidates": r["n"]} for c, r in list(zip(cases, recs))[:5]], "distribution": dict(dist),
+            "rule": "corpus texts x {shipped, constant, seeded random scorer} x depth limits x latent on/off, no timeout; stream vs single-result call with identical arguments; non-trivial = distinct case with >= 2 candidates"}
+
+
+# ------------------------------------------------------------------ C15
+def val_key(a):
+    from ctparse.types import RegexMatch, Time, Interval, Duration
+    if isinstance(a, RegexMatch): return ("R", a.id, a.mstart, a.mend)
+    if isinstance(a, Time): return ("T", a.year, a.month, a.day, a.hour, a.minute, a.DOW, a.POD)
+    if isinstance(a, Interval): return ("I", val_key(a.t_from) if a.t_from else None, val_key(a.t_to) if a.t_to else None)
+    if isinstance(a, Duration): return ("D", a.value, a.unit.value)
+
+
+def brute(txt, ts, limit=6000):
+    """independent closure of the derivation relation: gap-free maximal-coverage sequences, all rule applications on private copies"""
+    C = sys.modules["ctparse.ctparse"]
+    from ctparse.rule import rules, _regex
+    from ctparse.types import RegexMatch
+    txt0 = re.sub('#[a-zA-Z0-9_-]+', '', C._preprocess_string(txt)).strip()
+    ms = C._match_regex(txt0, _regex)
+    ms = sorted(ms, key=lambda m: (m.mstart, m.mend, m.id))
+    # own enumeration of maximal gap-free sequences
+    n = len(ms)
+    adj = lambda a, b: b.mstart >= a.mend and txt0[a.mend:b.mstart].strip() == "" and True
+    succ = {i: [j for j in range(i + 1, n) if adj(ms[i], ms[j]) and not ms[j].mstart < ms[i].mend] for i in range(n)}
+    haspred = {j for i in range(n) for j in succ[i]}
+    seqs = []
+    def walk(path):
+        if len(seqs) > 3000: return
+        nx = succ[path[-1]]
+        if not nx: seqs.append(tuple(ms[i] for i in path)); return
+        for j in nx: walk(path + [j])
+    for i in range(n):
+        if i not in haspred: walk([i])
+    if not seqs: return set(), set(), {}, 0
+    cov = lambda s: s[-1].mend - s[0].mstart
+    mx = max(cov(s) for s in seqs)
+    seqs = [s for s in seqs if cov(s) >= mx]
+    seen = {}
+    traces = {}
+    work = list(seqs)
+    for s in work:
+        k = tuple(val_key(x) for x in s); seen[k] = s; traces[k] = {tuple(str(r.id) for r in s)}
+    terminals = set(); cnt = 0
+    while work:
+        p = work.pop(); cnt += 1
+        if cnt > limit: return None, None, None, cnt
+        kp = tuple(val_key(x) for x in p)
+        any_succ = False
+        for name, (f, pat) in rules.items():
+            for (i, j) in C._match_rule(p, pat):
+                args = [a if isinstance(a, RegexMatch) else copy.deepcopy(a) for a in p[i:j]]
+                r = f(ts, *args)
+                if r is None: continue
+                any_succ = True
+                q = p[:i] + (r,) + p[j:]
+                k = tuple(val_key(x) for x in q)
+                if k not in seen:
+                    seen[k] = q; work.append(q)
+        if not any_succ:
+            for x in p:
+                if not isinstance(x, RegexMatch): terminals.add(val_key(x))
+    allvals = {v for k in seen for v in k if v[0] != "R"}
+    return terminals, allvals, seen, cnt
+
+
+def replay_trace(txt, ts, production, target):
+    """is `production` a real derivation of `target`: some maximal sequence with these ids, rules applied in this order at some window"""
+    C = sys.modules["ctparse.ctparse"]
+    from ctparse.rule import rules, _regex
+    from ctparse.types import RegexMatch
+    txt0 = re.sub('#[a-zA-Z0-9_-]+', '', C._preprocess_string(txt)).strip()
+    ids = [x for x in production if isinstance(x, int)]
+    names = [x for x in production if isinstance(x, str)]
+    ms = C._match_regex(txt0, _regex)
+    seqs = [s for s in C._regex_stack(txt0, ms) if [m.id for m in s] == ids]
+    frontier = [tuple(s) for s in seqs]
+    for nm in names:
+        if nm not in rules: return False
+        f, pat = rules[nm]
+        nxt = []
+        for p in frontier:
+            for (i, j) in C._match_rule(p, pat):
+                args = [a if isinstance(a, RegexMatch) else copy.deepcopy(a) for a in p[i:j]]
+                r = f(ts, *args)
+                if r is not None: nxt.append(p[:i] + (r,) + p[j:])
+        frontier = nxt[:400]
+        if not frontier: return False
+    return any(val_key(x) == target for p in frontier for x in p)
+
+
+def c15_case(case):
+    _init()
+    from ctparse import ctparse_gen
+    from ctparse.scorer import DummyScorer, RandomScorer
+    from ctparse.rule import rules
+    C = sys.modules["ctparse.ctparse"]
+    text, ts, o = case
+    t0 = to_ts(ts)
+    terminals, allvals, seen, cnt = brute(text, t0)
+    if terminals is None: return {"skip": "closure too large"}
+    mk = {"shipped": lambda: None, "const": DummyScorer, "random": lambda: RandomScorer(random.Random(o["seed"]))}[o["scorer"]]
+    probs = []
+    # argument snapshots around every rule application (registry wrappers)
+    mutated = []
+    saved = {}
+    for name, (f, pat) in list(rules.items()):
+        def mkw(f=f, name=name):
+            def w(ts_, *args):
+                before = [val_key(a) + ((a.mstart, a.mend),) for a in args]
+                r = f(ts_, *args)
+                after = [val_key(a) + ((a.mstart, a.mend),) for a in args]
+                if before != after: mutated.append(name)
+                return r
+            return w
+        saved[name] = (f, pat); rules[name] = (mkw(), pat)
+    try:
+        yielded = []
+        for p in ctparse_gen(text, ts=t0, timeout=0, max_stack_depth=o["depth"], latent_time=False, scorer=mk()):
+            if p is None: continue
+            yielded.append((p, val_key(p.resolution) + ((p.resolution.mstart, p.resolution.mend),)))
+    except Exception as e:
+        return {"fail": ["exception " + type(e).__name__]}
+    finally:
+        for name, v in saved.items(): rules[name] = v
+    got = {k[:-1] for _, k in yielded}
+    if not got <= allvals: probs.append("underivable candidate %s" % sorted(got - allvals, key=str)[:2])
+    if o["depth"] == 0 and not terminals <= got: probs.append("fully reduced derivation result never streamed: %s" % sorted(terminals - got, key=str)[:2])
+    if mutated: probs.append("rule %s altered the values it was applied to" % sorted(set(mutated))[:3])
+    for p, k in yielded:
+        if val_key(p.resolution) + ((p.resolution.mstart, p.resolution.mend),) != k: probs.append("a candidate changed after it was yielded"); break
+    for p, k in yielded[:6]:
+        if not replay_trace(text, t0, p.production, k[:-1]): probs.append("reported production %s is not a derivation of %s" % (p.production, p.resolution)); break
+    if probs: return {"fail": probs}
+    return {"ok": len(yielded), "closure": cnt}
+
+
+def sweep_c15(rng, tier):
+    import multiprocessing as mp
+    from ctparse.time.corpus import corpus
+    C = sys.modules.get("ctparse.ctparse")
+    _init()
+    C = sys.modules["ctparse.ctparse"]
+    P = lambda s: tuple(datetime.strptime(s, "%Y-%m-%dT%H:%M").timetuple()[:5]) + (0,)
+    ex = [(t, P(tss)) for _, tss, tests in corpus for t in tests if len(C._preprocess_string(t)) <= 24]
+    ex = rng.sample(ex, 160 if tier == "thorough" else 45)
+    ts0 = (2020, 11, 25, 12, 0, 0)
+    ex += [(t, ts0) for t in ["monday morning 5.12.2020", "freitag abend 4.12.2020", "tomorrow #work 5pm", "5.12.2020 #trip-1 8:30 - 9:30", "9-5", "8 - 9 uhr", "3 days 15-18 Nov", "15-18 Nov für 3 Nächte", "am 5.5. um 8"]]
+    cases = []
+    for t, ts in ex:
+        cases.append((t, ts, {"scorer": "const", "depth": 0, "seed": 0}))
+        cases.append((t, ts, {"scorer": "shipped", "depth": 0, "seed": 0}))
+        cases.append((t, ts, {"scorer": "random", "depth": rng.choice([0, 3]), "seed": rng.randrange(99)}))
+    ctx = mp.get_context("fork")
+    with ctx.Pool(min(16, os.cpu_count() or 1)) as pool:
+        recs = pool.map(c15_case, cases, chunksize=2)
+    fails, seen, dist = [], set(), collections.Counter()
+    for c, r in zip(cases, recs):
+        if "skip" in r: dist["skipped:" + r["skip"]] += 1; continue
+        dist["checked"] += 1
+        if r.get("ok", 0) >= 1: seen.add((c[0], json.dumps(c[2], sort_keys=True)))
+        for p in r.get("fail", []):
+            fails.append({"text": c[0], "ts": list(c[1]), "opts": c[2], "expected": "streamed = derivable; complete without depth limit; traces replay; rules do not alter their arguments", "observed": p, "what": "C15: " + " ".join(p.split(" ")[:3])})
+    return {"evaluations": len(cases), "distinct_nontrivial": len(seen), "failures": fails, "samples": [{"text": c[0], "opts": c[2], "closure": r.get("closure")} for c, r in list(zip(cases, recs))[:5]], "distribution": dict(dist),
+            "rule": "short texts (<= 24 chars, derivation closure enumerable) x {constant, shipped, seeded random scorer} x depth limits; independent brute-force closure of rule applications on private copies vs the real stream; replay of reported productions; argument snapshots around every rule application"}
+
+
+# ------------------------------------------------------------------ C16 / C17
+def textbook_nb(docs, labels, q, alpha=1.0):
+    """independent reference: Laplace-smoothed multinomial NB over all 1-3-grams; returns (log P(neg|q), log P(pos|q))"""
+    def grams(d):
+        out = list(d)
+        for n in (2, 3):
+            out += [" ".join(d[i:i + n]) for i in range(len(d) - n + 1)]
+        return out
+    vocab = sorted({g for d in docs for g in grams(d)})
+    cnt = {c: collections.Counter() for c in (0, 1)}
+    for d, y in zip(docs, labels):
+        cnt[1 if y else 0].update(grams(d))
+    tot = {c: sum(cnt[c][g] for g in vocab) + alpha * len(vocab) for c in (0, 1)}
+    n1 = sum(1 for y in labels if y); n0 = len(labels) - n1
+    lp = {0: math.log(n0 / (n0 + n1)), 1: math.log(n1 / (n0 + n1))}
+    for g in grams(q):
+        if g in set(vocab):
+            for c in (0, 1): lp[c] += math.log((cnt[c][g] + alpha) / tot[c])
+    m = max(lp.values()); lse = m + math.log(sum(math.exp(v - m) for v in lp.values()))
+    return lp[0] - lse, lp[1] - lse
+
+
+def gen_corpus(rng):
+    k = rng.choice([1, 2, 3, 5, 8, 12])
+    alpha = ["r%d" % i for i in range(k)]
+    n = rng.choice([2, 3, 5, 9, 20, 40])
+    docs = [[rng.choice(alpha) for _ in range(rng.choice([1, 1, 2, 3, 4, 7, 12]))] for _ in range(n)]
+    labels = [rng.random() < rng.choice([0.2, 0.5, 0.8]) for _ in range(n)]
+    if all(labels): labels[0] = False
+    if not any(labels): labels[0] = True
+    return alpha, docs, labels
+
+
+def sweep_c16(rng, tier):
+    _init()
+    import bz2, pickle, tempfile
+    from ctparse.nb_scorer import train_naive_bayes, NaiveBayesScorer, save_naive_bayes
+    from ctparse.partial_parse import PartialParse
+    from ctparse.types import Time
+    C = sys.modules["ctparse.ctparse"]
+    fails, dist = [], collections.Counter()
+    n = 1500 if tier == "thorough" else 200
+    seen = set()
+    for i in range(n):
+        alpha, docs, labels = gen_corpus(rng)
+        try:
+            mdl = train_naive_bayes(docs, labels)
+        except Exception as e:
+            fails.append({"text": json.dumps(docs), "ts": None, "opts": {"labels": labels}, "expected": "trains", "observed": type(e).__name__, "what": "C16 fit raises"}); continue
+        vocab_sorted = sorted(mdl.transformer.vocabulary)
+        for _ in range(4):
+            L = rng.choice([0, 1, 2, 3, 5, 9, 30]) if rng.random() < 0.9 else rng.choice([150, 500])
+            q = [rng.choice(alpha + ["unseen"]) for _ in range(L)]
+            if rng.random() < 0.3 and vocab_sorted:
+                q = q + vocab_sorted[-1].split(" ")          # the lexicographically greatest n-gram
+            if rng.random() < 0.2 and docs: q = list(docs[0])
+            dist["queries"] += 1
+            try:
+                got = mdl.predict_log_proba([q])[0]
+            except Exception as e:
+                fails.append({"text": json.dumps(q), "ts": None, "opts": {"docs": docs, "labels": labels}, "expected": "finite log-probabilities", "observed": type(e).__name__ + ": " + str(e), "what": "C16 predict raises"}); continue
+            want = textbook_nb(docs, labels, q)
+            seen.add((i, tuple(q)))
+            ok = all(math.isfinite(x) for x in got) and abs(got[0] - want[0]) < 1e-9 and abs(got[1] - want[1]) < 1e-9 and abs(math.exp(got[0]) + math.exp(got[1]) - 1) < 1e-9
+            if not ok:
+                fails.append({"text": json.dumps(q), "ts": None, "opts": {"docs": docs, "labels": labels}, "expected": "textbook NB %r" % (want,), "observed": repr(got), "what": "C16 log-probabilities"})
+            # score composition
+            sc = NaiveBayesScorer(mdl)
+            a = Time(); a.mstart, a.mend = 0, rng.randint(1, 9)
+            x = Time(); x.mstart, x.mend = 2, 2 + rng.randint(1, 7)
+            txt = "x" * rng.randint(9, 30)
+            if q:
+                pp = PartialParse((a,), tuple(q))
+                s1 = sc.score(txt, None, pp); s2 = sc.score_final(txt, None, pp, x)
+                e1 = (want[1] - want[0]) + math.log((a.mend - a.mstart) / len(txt)); e2 = (want[1] - want[0]) + 1000 * math.log((x.mend - x.mstart) / len(txt))
+                if abs(s1 - e1) > 1e-9 or abs(s2 - e2) > 1e-7:
+                    fails.append({"text": json.dumps(q), "ts": None, "opts": {"docs": docs, "labels": labels}, "expected": "log-odds + log share (x1000 final): %r %r" % (e1, e2), "observed": "%r %r" % (s1, s2), "what": "C16 score composition"})
+        if i % 10 == 0:
+            with tempfile.TemporaryDirectory() as td:
+                fn = os.path.join(td, "m.pbz"); save_naive_bayes(mdl, fn)
+                sc2 = NaiveBayesScorer.from_model_file(fn)
+                q = docs[0]
+                if sc2._model.predict_log_proba([q]) != mdl.predict_log_proba([q]):
+                    fails.append({"text": json.dumps(q), "ts": None, "opts": {}, "expected": "same scores after save/load", "observed": "differs", "what": "C16 save/load"})
+                dist["save/load"] += 1
+    # every candidate of (a sample of) the bundled corpus under the shipped model: finite, normalised, equals the recomputation from the pickled tables
+    from ctparse.time.corpus import corpus
+    from ctparse import ctparse_gen
+    mdl = C._DEFAULT_SCORER._model
+    inv = mdl.transformer.vocabulary
+    for _, tss, tests in rng.sample(corpus, 40 if tier == "thorough" else 10):
+        for t in tests[:3]:
+            for p in ctparse_gen(t, ts=datetime.strptime(tss, "%Y-%m-%dT%H:%M"), timeout=0, latent_time=False):
+                if p is None: continue
+                q = [str(x) for x in p.production]
+                got = mdl.predict_log_proba([q])[0]
+                dist["shipped-model candidates"] += 1
+                def grams(d):
+                    out = list(d)
+                    for n_ in (2, 3): out += [" ".join(d[i:i + n_]) for i in range(len(d) - n_ + 1)]
+                    return out
+                lp = [mdl.estimator.class_prior[0], mdl.estimator.class_prior[1]]
+                for g, c in collections.Counter(grams(q)).items():
+                    if g in inv:
+                        lp[0] += mdl.estimator.log_likelihood["negative_class"][inv[g]] * c; lp[1] += mdl.estimator.log_likelihood["positive_class"][inv[g]] * c
+                m = max(lp); lse = m + math.log(sum(math.exp(v - m) for v in lp))
+                if not (all(math.isfinite(x) for x in got) and abs(got[0] - (lp[0] - lse)) < 1e-9 and abs(got[1] - (lp[1] - lse)) < 1e-9 and abs(math.exp(got[0]) + math.exp(got[1]) - 1) < 1e-9):
+                    fails.append({"text": t, "ts": None, "opts": {"production": q}, "expected": "%r" % ((lp[0] - lse, lp[1] - lse),), "observed": repr(got), "what": "C16 shipped model"})
+    return {"evaluations": sum(dist.values()), "distinct_nontrivial": len(seen), "failures": fails, "samples": [{"corpus": "random token sequences over r0..rk", "query_lengths": "0..30, some 150/500", "tolerance": 1e-9}], "distribution": dict(dist),
+            "rule": "random corpora (alphabet 1-12, 2-40 documents, both classes present) x random queries incl. unseen tokens, the greatest vocabulary n-gram, a training document, and very long documents; independent textbook implementation as oracle; save/load round trip; candidates of the bundled corpus under the shipped model"}
+
+
+def sweep_c17(rng, tier):
+    _init()
+    from ctparse.corpus import make_partial_rule_dataset, TimeParseEntry, parse_nb_string, run_corpus, load_timeparse_corpus
+    from ctparse.scorer import DummyScorer
+    from ctparse.nb_scorer import train_naive_bayes
+    from ctparse import ctparse_gen
+    from ctparse.types import Time, Interval, Duration, DurationUnit
+    fails, dist = [], collections.Counter()
+    seen = set()
+    # 1. dataset builders: one sample per prefix, labelled by value equality with the gold (span independent)
+    entries = []
+    ts = datetime(2018, 3, 7, 12, 43)
+    golds = [("monday morning", Time(DOW=0, POD="morning")), ("Montag früh", Time(DOW=0, POD="morning")), ("tuesday evening", Time(DOW=1, POD="evening")), ("tomorrow 5pm", Time(2018, 3, 8, 17, 0)),
+             ("3 days", Duration(3, DurationUnit.DAYS)), ("two nights", Duration(2, DurationUnit.NIGHTS)), ("friday 8pm-9pm", Interval(Time(2018, 3, 9, 20, 0), Time(2018, 3, 9, 21, 0))),
+             ("12.12.2020", Time(2020, 12, 12)), ("lunch 12.12.2020 with bob", Time(2020, 12, 12)), ("3 days", Duration(3, DurationUnit.HOURS)), ("before 5pm", Interval(None, Time(hour=17, minute=0)))]
+    try:
+        ds = load_timeparse_corpus(os.path.join(REPO, "datasets", "timeparse_corpus.json"))
+        extra = rng.sample(list(ds), 60 if tier == "thorough" else 12)
+    except Exception:
+        extra = []
+    for text, gold in golds:
+        entries.append(TimeParseEntry(text=text, ts=ts, gold=gold))
+        # gold written with nb_str and loaded back must denote the same value
+        back = parse_nb_string(gold.nb_str())
+        dist["gold round trips"] += 1
+        if back != gold:
+            fails.append({"text": gold.nb_str(), "ts": None, "opts": {}, "expected": "parse_nb_string(nb_str(x)) == x", "observed": back.nb_str(), "what": "C17 gold round trip"})
+    entries += extra
+    for e in entries:
+        cands = [p for p in ctparse_gen(e.text, e.ts, relative_match_len=1.0, timeout=0, max_stack_depth=0, scorer=DummyScorer(), latent_time=False) if p is not None]
+        want = []
+        for p in cands:
+            def same(a, b):
+                if type(a) != type(b): return False
+                if isinstance(a, Time): return all(getattr(a, k) == getattr(b, k) for k in ("year", "month", "day", "hour", "minute", "DOW", "POD"))
+                if isinstance(a, Interval): return all((x is None and y is None) or (x is not None and y is not None and same(x, y)) for x, y in ((a.t_from, b.t_from), (a.t_to, b.t_to)))
+                return a.value == b.value and a.unit == b.unit
+            y = same(p.resolution, e.gold)
+            for i in range(1, len(p.production) + 1):
+                want.append(([str(x) for x in p.production[:i]], y))
+        got = [(list(X), bool(y)) for X, y in make_partial_rule_dataset([e], DummyScorer(), timeout=0, max_stack_depth=0)]
+        got_list = list(make_partial_rule_dataset([e], DummyScorer(), timeout=0, max_stack_depth=0))     # materialised: aliases would show here
+        got2 = [(list(X), bool(y)) for X, y in got_list]
+        dist["dataset entries"] += 1
+        seen.add(e.text)
+        if got != want or got2 != want:
+            fails.append({"text": e.text, "ts": str(e.ts), "opts": {"gold": e.gold.nb_str()}, "expected": "%d samples: one per trace prefix, label = value equality with gold" % len(want), "observed": "%d samples, %d positive (expected %d positive)" % (len(got2), sum(y for _, y in got2), sum(y for _, y in want)), "what": "C17 dataset"})
+    # run_corpus on a mini corpus of every result type
+    mini = [(g.nb_str(), "2018-03-07T12:43", [t]) for t, g in golds if not (t == "3 days" and g.unit == DurationUnit.HOURS)]
+    try:
+        Xs, ys = run_corpus(mini)
+        dist["run_corpus samples"] += len(Xs)
+        if not any(ys): fails.append({"text": "mini corpus", "ts": None, "opts": {}, "expected": "positives", "observed": "none", "what": "C17 run_corpus"})
+    except Exception as e:
+        fails.append({"text": "mini corpus (Monday morning, durations, intervals)", "ts": None, "opts": {}, "expected": "every gold is produced and recognised", "observed": "%s: %s" % (type(e).__name__, e), "what": "C17 run_corpus"})
+    # 2. duplication monotonicity
+    n = 1500 if tier == "thorough" else 250
+    for i in range(n):
+        alpha, docs, labels = gen_corpus(rng)
+        if rng.random() < 0.4:      # small saturated sets
+            k = rng.choice([1, 2]); alpha = ["r%d" % j for j in range(k)]
+            docs = [[rng.choice(alpha) for _ in range(rng.choice([1, 1, 2]))] for _ in range(rng.choice([2, 3, 4]))]
+            labels = [True] + [rng.random() < 0.5 for _ in docs[1:]]
+            if all(labels): labels[-1] = False
+        pos = [j for j, y in enumerate(labels) if y]
+        if not pos: continue
+        j = rng.choice(pos); x = docs[j]
+        if not x: continue
+        prev = None
+        for k in (0, 1, 2, 5, 20):
+            mdl = train_naive_bayes(docs + [x] * k, labels + [True] * k)
+            pr = mdl.predict_log_proba([x])[0]
+            s = pr[1] - pr[0]
+            dist["retrainings"] += 1
+            if prev is not None and s < prev - 1e-9:
+                fails.append({"text": json.dumps(x), "ts": None, "opts": {"docs": docs, "labels": labels, "copies": k}, "expected": "score of the duplicated positive example does not drop (was %r)" % prev, "observed": repr(s), "what": "C17 duplication monotonicity"}); break
+            prev = s
+        seen.add(("dup", i))
+    return {"evaluations": sum(dist.values()), "distinct_nontrivial": len(seen), "failures": fails, "samples": [{"text": t, "gold": g.nb_str()} for t, g in golds[:5]], "distribution": dict(dist),
+            "rule": "generated entries of every result type (incl. Monday = DOW 0, durations, open intervals, surrounding words) + entries of the bundled dataset through both dataset builders, materialised and streamed; gold strings round-tripped; random training sets (incl. small saturated ones) with a positive example duplicated k = 1, 2, 5, 20 times"}
+
+
+# ------------------------------------------------------------------ C18
+def sweep_c18(rng, tier):
+    _init()
+    from ctparse.types import Time, Interval, Duration, DurationUnit, pod_hours
+    from ctparse.corpus import parse_nb_string, load_timeparse_corpus
+    fails, dist = [], collections.Counter()
+    pools = {"year": [None, 1, 1970, 1999, 2000, 2020, 9999], "month": [None, 1, 2, 12], "day": [None, 1, 28, 31], "hour": [None, 0, 12, 23], "minute": [None, 0, 30, 59],
+             "DOW": [None, 0, 1, 6], "POD": [None, "morning", "earlymorning", "last", "verylatenight"]}
+    keys = list(pools)
+    allt = [Time(**dict(zip(keys, combo))) for combo in itertools.product(*[pools[k] for k in keys])]
+    if tier == "quick": allt = rng.sample(allt, 2500) + [Time(), Time(DOW=0), Time(DOW=0, POD="morning"), Time(hour=0, minute=0), Time(year=1, month=1, day=1)]
+    vk = lambda t: tuple(getattr(t, k) for k in keys)
+
+    def check_value(x, valkey, kind):
+        dist[kind] += 1
+        s = x.nb_str()
+        try:
+            back = parse_nb_string(s)
+        except Exception as e:
+            fails.append({"text": s, "ts": None, "opts": {}, "expected": "text form parses back", "observed": type(e).__name__, "what": "C18 round trip"}); return s
+        if not (back == x) or back.nb_str() != s:
+            fails.append({"text": s, "ts": None, "opts": {}, "expected": "parse(print(x)) == x", "observed": back.nb_str(), "what": "C18 round trip"})
+        y = copy.copy(x); y.mstart, y.mend = 3, 17
+        if not (x == y) or hash(x) != hash(y):
+            fails.append({"text": s, "ts": None, "opts": {"spans": [(x.mstart, x.mend), (3, 17)]}, "expected": "equal and equal hashes regardless of the character span", "observed": "eq=%s hash_eq=%s" % (x == y, hash(x) == hash(y)), "what": "C18 span independence"})
+        return s
+    strs = {}
+    for t in allt:
+        s = check_value(t, vk(t), "time values")
+        if s in strs and strs[s] != vk(t):
+            fails.append({"text": s, "ts": None, "opts": {"a": strs[s], "b": vk(t)}, "expected": "text form injective", "observed": "two different values print the same", "what": "C18 injectivity"})
+        strs[s] = vk(t)
+    sample = rng.sample(allt, 220 if tier == "thorough" else 70)
+    for a in sample:
+        for b in sample:
+            dist["time pairs"] += 1
+            eq = (a == b)
+            if eq != (vk(a) == vk(b)):
+                fails.append({"text": a.nb_str() + " == " + b.nb_str(), "ts": None, "opts": {}, "expected": str(vk(a) == vk(b)), "observed": str(eq), "what": "C18 equality"})
+            if vk(a) == vk(b) and hash(a) != hash(b):
+                fails.append({"text": a.nb_str(), "ts": None, "opts": {}, "expected": "equal hashes", "observed": "differ", "what": "C18 hash"})
+    ends = [None] + rng.sample(allt, 12)
+    ivs = [Interval(t_from=a, t_to=b) for a in ends for b in ends]
+    ik = lambda i: (None if i.t_from is None else vk(i.t_from), None if i.t_to is None else vk(i.t_to))
+    for i in ivs: check_value(i, ik(i), "interval values")
+    for a in ivs[::3]:
+        for b in ivs[::2]:
+            dist["interval pairs"] += 1
+            if (a == b) != (ik(a) == ik(b)):
+                fails.append({"text": a.nb_str() + " == " + b.nb_str(), "ts": None, "opts": {}, "expected": str(ik(a) == ik(b)), "observed": str(a == b), "what": "C18 equality"})
+    durs = [Duration(n, u) for n in (0, 1, 2, 7, 30, 100, 10 ** 6) for u in DurationUnit]
+    for d in durs: check_value(d, (d.value, d.unit), "duration values")
+    for a in durs:
+        for b in durs:
+            dist["duration pairs"] += 1
+            want = (a.value, a.unit) == (b.value, b.unit)
+            if (a == b) != want or (want and hash(a) != hash(b)):
+                fails.append({"text": a.nb_str() + " == " + b.nb_str(), "ts": None, "opts": {}, "expected": str(want), "observed": str(a == b), "what": "C18 equality"})
+    # different kinds are never equal
+    if Time() == Interval() or Duration(1, DurationUnit.DAYS) == Time():
+        fails.append({"text": "Time() == Interval()", "ts": None, "opts": {}, "expected": "False", "observed": "True", "what": "C18 equality"})
+    try:
+        for e in load_timeparse_corpus(os.path.join(REPO, "datasets", "timeparse_corpus.json")):
+            dist["dataset gold strings"] += 1
+            if parse_nb_string(e.gold.nb_str()) != e.gold:
+                fails.append({"text": e.gold.nb_str(), "ts": None, "opts": {}, "expected": "round trip", "observed": "differs", "what": "C18 round trip"})
+    except FileNotFoundError:
+        pass
+    n = sum(dist.values())
+    return {"evaluations": n, "distinct_nontrivial": len(strs) + len(ivs) + len(durs), "failures": fails, "samples": [allt[0].nb_str(), ivs[5].nb_str(), durs[3].nb_str()], "distribution": dict(dist),
+            "rule": "product of present/absent and boundary values over all seven Time fields (DOW 0 and hour/minute 0 included); Interval pairs incl. open ends; Duration amounts x units; equality vs field-wise equality, hash agreement, span independence, injective text form, parse(print) round trip; gold strings of the bundled dataset"}
+
+
+# ------------------------------------------------------------------ C19
+def sweep_c19(rng, tier):
+    _init()
+    import ast as pyast
+    from ctparse.rule import rules, _regex, _regex_str, _str_regex
+    from ctparse.types import pod_hours, Time, RegexMatch
+    C = sys.modules["ctparse.ctparse"]
+    fails, dist = [], collections.Counter()
+    # 1. every @rule definition in the source is registered under a unique name
+    src = open(os.path.join(REPO, "ctparse", "time", "rules.py"), encoding="utf-8").read()
+    tree = pyast.parse(src)
+    defs = []
+    for node in tree.body:
+        if isinstance(node, pyast.FunctionDef) and any(isinstance(d, pyast.Call) and getattr(d.func, "id", None) == "rule" for d in node.decorator_list):
+            nargs = [len(d.args) for d in node.decorator_list if isinstance(d, pyast.Call) and getattr(d.func, "id", None) == "rule"][0]
+            defs.append((node.name, nargs))
+    dist["rule definitions"] = len(defs)
+    names = [n for n, _ in defs]
+    dup = [n for n, c in collections.Counter(names).items() if c > 1]
+    if dup: fails.append({"text": dup[0], "ts": None, "opts": {}, "expected": "unique rule names", "observed": "defined %d times" % names.count(dup[0]), "what": "C19 duplicate definition"})
+    for n, k in defs:
+        if n not in rules: fails.append({"text": n, "ts": None, "opts": {}, "expected": "registered", "observed": "not in the registry", "what": "C19 unregistered"})
+        elif names.count(n) == 1 and len(rules[n][1]) != k: fails.append({"text": n, "ts": None, "opts": {}, "expected": "%d pattern elements" % k, "observed": "%d" % len(rules[n][1]), "what": "C19 registry mismatch"})
+    if len(rules) != len(set(names)): fails.append({"text": "registry", "ts": None, "opts": {}, "expected": "%d rules" % len(set(names)), "observed": "%d" % len(rules), "what": "C19 registry size"})
+    # 2. no adjacent regex predicates; identical pattern text shares one id
+    for n, (f, pat) in rules.items():
+        for a, b in zip(pat[:-1], pat[1:]):
+            if a.__name__ == "_regex_match" and b.__name__ == "_regex_match": fails.append({"text": n, "ts": None, "opts": {}, "expected": "no two adjacent patterns", "observed": "adjacent", "what": "C19 adjacent patterns"})
+    if len(set(_regex_str.values())) != len(_regex_str) or any(_regex_str[i] != s for s, i in _str_regex.items()):
+        fails.append({"text": "regex ids", "ts": None, "opts": {}, "expected": "identical pattern text shares one id", "observed": "duplicate pattern text under two ids", "what": "C19 ids"})
+    # 3. no pattern matches the empty string / yields a zero-length match on probe texts
+    probes = ["", " ", "  ", "a", "1", ".", "12", "h", "x y", "montag 5", "5.5.", "-", "am", "uhr", "\t", " ", "5 ", " 5", "früh", "5th of may 2020 8pm to 9pm for 3 days"]
+    from ctparse.time.corpus import corpus
+    probes += [t for _, _, tests in rng.sample(corpus, 30) for t in tests[:2]]
+    for rid, rx in _regex.items():
+        for t in probes:
+            dist["pattern x probe"] += 1
+            for m in rx.finditer(t, overlapped=True):
+                if m.end() == m.start() or RegexMatch(rid, m).mend <= RegexMatch(rid, m).mstart:
+                    fails.append({"text": t, "ts": None, "opts": {"pattern": rid}, "expected": "no zero-length match", "observed": "span %r" % (m.span(),), "what": "C19 zero-length match"}); break
+    # 4. every rule can fire (witness: appears in a production of the corpus run or of a generated text)
+    fired = set()
+    from ctparse import ctparse_gen
+    from ctparse.time.auto_corpus import corpus as ac
+    wit = [(t, tss) for _, tss, tests in corpus for t in tests] + [(t, tss) for _, tss, tests in rng.sample(ac, 150) for t in tests[:1]]
+    wit += [(t, "2018-03-07T12:43") for t in ["15-18 Nov für 3 Nächte", "15-18 Nov 3 Nächte", "3 days 15-18 Nov", "monday 5th", "5th of may", "early morning", "very late evening", "end of month", "eoy", "übermorgen", "vorgestern",
+                                              "quarter past 3", "half past 8", "halb nach 8", "morning to evening", "friday next week", "late 8-9", "12.12.2020 for 3 days", "midnight", "1230 uhr", "3 o'clock", "now", "before 5pm", "after friday", "12/24", "vom 5.5. bis 7.5.2020"]]
+    for t, tss in wit:
+        if len(fired) == len(rules): break
+        for p in ctparse_gen(t, ts=datetime.strptime(tss, "%Y-%m-%dT%H:%M"), timeout=0, max_stack_depth=0, latent_time=False):
+            if p is not None: fired.update(x for x in p.production if isinstance(x, str))
+    dist["rules fired"] = len(fired & set(rules))
+    for n in rules:
+        if n not in fired: fails.append({"text": n, "ts": None, "opts": {}, "expected": "the rule fires on some text", "observed": "no witness among %d texts" % len(wit), "what": "C19 rule never fires"})
+    # 5. part-of-day closure: all modifier chains the registered productions can build stay inside the table
+    rid = G.regex_id_of("ruleEarlyLatePOD")
+    mods = []
+    for w in ["early", "late", "very early", "very late", "früh", "spät", "sehr früh", "sehr spät"]:
+        for m in _regex[rid].finditer(w, overlapped=True):
+            if m.span() == (0, len(w)): mods.append(RegexMatch(rid, m))
+    frontier = [Time(POD=k) for k in pod_hours]
+    seenp = set(pod_hours)
+    depth = 5 if tier == "thorough" else 4
+    for _ in range(depth):
+        nxt = []
+        for p in frontier:
+            for m in mods:
+                dist["modifier chains"] += 1
+                r = rules["ruleEarlyLatePOD"][0](datetime(2018, 3, 7), m, copy.copy(p))
+                if r is None: continue
+                if r.POD not in pod_hours:
+                    fails.append({"text": r.POD, "ts": None, "opts": {"from": p.POD}, "expected": "a key of the part-of-day table", "observed": "unknown part of day", "what": "C19 part-of-day closure"})
+                elif r.POD not in seenp: seenp.add(r.POD); nxt.append(r)
+        frontier = nxt
+    for k, (a, b) in pod_hours.items():
+        if not (0 <= a <= 23 and 0 <= b <= 23): fails.append({"text": k, "ts": None, "opts": {}, "expected": "hours within 0..23", "observed": repr((a, b)), "what": "C19 part-of-day hours"})
+    # 6. shipped vocabulary speaks the rule base's language
+    mdl = getattr(C._DEFAULT_SCORER, "_model", None)
+    if mdl is not None:
+        toks = {w for g in mdl.transformer.vocabulary for w in g.split(" ")}
+        dist["vocabulary unigrams"] = len(toks)
+        for w in toks:
+            if not (w in rules or (w.isdigit() and int(w) in _regex)):
+                fails.append({"text": w, "ts": None, "opts": {}, "expected": "a pattern id or rule name", "observed": "unknown token in the shipped vocabulary", "what": "C19 vocabulary"})
+    return {"evaluations": sum(dist.values()), "distinct_nontrivial": len(defs) + len(_regex), "failures": fails, "samples": [{"rule": defs[0][0]}, {"patterns": len(_regex)}, {"pods_reached": len(seenp)}], "distribution": dict(dist),
+            "rule": "syntax tree of ctparse/time/rules.py vs the registry; all patterns x probe texts (zero-length matches); adjacency and id sharing; a firing witness per rule from corpus/generated texts; all early/late/very modifier chains up to depth 4-5 over every table key; all unigram tokens of the shipped vocabulary"}
